@@ -109,6 +109,17 @@ CHECKS["C02"] = dict(
     ref="6 (C02)", technique="Coq proof (operator models vs the order they refine to) for the modelled schemes + exhaustive-by-stream law evaluation on pairs for all classes",
     note="PARTIAL in breadth as for C01. The model follows the code after the fix: commits that added the missing <=/>= and made debian equality numeric.")
 
+CHECKS["C12"] = dict(
+    text="Finite theorems re-proved on every run against tables regenerated from the live classes: every version class is hashable (its effective __hash__ is not None, found by "
+         "walking the MRO) and frozen (attribute assignment raises, tabulated by execution); VersionConstraint, VersionRange and Version hash exactly the attrs fields that == "
+         "compares and their effective __eq__/__hash__ are the attrs-generated ones. Per scheme with a model, == implies equality of the hashed key (generic, legacy openssl). "
+         "On the implementation, for every version class: whenever two versions are == (neighbour, random and equal-variant pairs) hash, set and dict must agree, also for "
+         "constraints and ranges built on them; attribute assignment is attempted on every object kind; and state snapshots of all arguments are compared before and after a "
+         "battery of public operations.",
+    ref="6 (C12), 10", technique="Coq proof by computation over translator-generated class tables + scheme-level eq/hash theorems; runtime monitoring for the mutation clause",
+    note="PARTIAL: 'no public operation changes its arguments' is about the CPython heap and cannot be a theorem of a functional model; it is monitored at run time (snapshots), named as such. "
+         "Hash/eq theorems for deb, gentoo, rpm etc. are not yet proved (checked on the implementation). Known finding: maven == is not an equivalence where a sub-list with an empty first item faces a missing item.")
+
 PENDING = {}
 
 
